@@ -20,14 +20,34 @@ from .model import C, INL, SMQ, valid_obj
 DROPPED = ["_callbacks", "_states_for_instance", "_engine"]  # from the property: registry, state cache, engine are rebuilt
 
 ASYNC_MM = z3.Bool("ASYNC_MACHINE_OR_MODEL")  # the machine or its model define coroutine callbacks
-ASYNC_L = z3.Function("ASYNC_LISTENERS", Int, Bool)  # some listener in this collection defines coroutine callbacks
+# The saved `_listeners` mapping (listener object -> how it was attached) and the collections made from it are abstract:
+L_HAS = z3.Function("LISTENERS_HAS", Int, Int, Bool)  # the mapping has this listener
+L_FLAG = z3.Function("LISTENERS_FLAG", Int, Int, Int)  # ... with this value (truthy: given to the constructor)
+MEMBER = z3.Function("COLL_MEMBER", Int, Int, Bool)  # a collection of listeners contains this one
+ASYNC_OBJ = z3.Function("ASYNC_LISTENER_OBJ", Int, Bool)  # this listener defines coroutine callbacks
+ASYNC_C = z3.Function("ASYNC_COLL", Int, Bool)  # some member of the collection does
+ASYNC_L = z3.Function("ASYNC_LISTENERS", Int, Bool)  # some listener of the mapping does
+WIT_C = z3.Function("ASYNC_COLL_WITNESS", Int, Int)
+WIT_L = z3.Function("ASYNC_LISTENERS_WITNESS", Int, Int)
+EMPTY_COLL = z3.Int("EMPTY_COLLECTION")
+from pyvc.core import GLOBAL_AXIOMS  # noqa: E402
+_c, _o = z3.Const("c!la", Int), z3.Const("o!la", Int)
+GLOBAL_AXIOMS.extend([
+    # definitions of the two existentials, in both directions (Skolem witnesses)
+    z3.ForAll([_c, _o], z3.Implies(z3.And(MEMBER(_c, _o), ASYNC_OBJ(_o)), ASYNC_C(_c)), patterns=[z3.MultiPattern(MEMBER(_c, _o), ASYNC_OBJ(_o))]),
+    z3.ForAll([_c], z3.Implies(ASYNC_C(_c), z3.And(MEMBER(_c, WIT_C(_c)), ASYNC_OBJ(WIT_C(_c)))), patterns=[ASYNC_C(_c)]),
+    z3.ForAll([_c, _o], z3.Implies(z3.And(L_HAS(_c, _o), ASYNC_OBJ(_o)), ASYNC_L(_c)), patterns=[z3.MultiPattern(L_HAS(_c, _o), ASYNC_OBJ(_o))]),
+    z3.ForAll([_c], z3.Implies(ASYNC_L(_c), z3.And(L_HAS(_c, WIT_L(_c)), ASYNC_OBJ(WIT_L(_c)))), patterns=[ASYNC_L(_c)]),
+    z3.ForAll([_o], z3.Not(MEMBER(EMPTY_COLL, _o)), patterns=[MEMBER(EMPTY_COLL, _o)]),
+])
 
 HEAP_SORTS["PSM.__dict__"] = A_II
 HEAP_SORTS["PEngine.is_async"] = z3.ArraySort(Int, Bool)
 HEAP_SORTS["PEngine.rtc"] = z3.ArraySort(Int, Bool)
 HEAP_SORTS["PEngine.pending_initial"] = z3.ArraySort(Int, Bool)
 HEAP_SORTS["PRegistry.has_async"] = z3.ArraySort(Int, Bool)
-HEAP_SORTS["PRegistry.listeners"] = A_II
+HEAP_SORTS["PRegistry.init_coll"] = A_II  # listeners registered together with machine and model (_register_callbacks)
+HEAP_SORTS["PRegistry.added_coll"] = A_II  # listeners attached afterwards (add_listener)
 
 psm = ClassModel("PSM", heapname="PSM", fields={"__dict__": "dict[str,Val]"},
                  methods={"_register_callbacks": C("pickle:_register_callbacks"), "add_listener": C("pickle:add_listener"),
@@ -42,7 +62,8 @@ ClassModel("PRegistry", fields={}, methods={"async_or_sync": C("pickle:async_or_
 def preg_ctor(ex, path, ca, node):
     r = path.alloc("PRegistry", "registry")
     path.store("PRegistry.has_async", r.e, z3.BoolVal(False))
-    path.store("PRegistry.listeners", r.e, NONE)
+    path.store("PRegistry.init_coll", r.e, EMPTY_COLL)
+    path.store("PRegistry.added_coll", r.e, EMPTY_COLL)
     return [(path, r)]
 
 
@@ -50,13 +71,69 @@ CLASSES["PRegistry"].ctor = preg_ctor
 GLOBAL_NAMES["statemachine.statemachine:CallbacksRegistry"] = Py(("class", "PRegistry"))
 
 
+ClassModel("LMap")  # the saved `_listeners` dict
+ClassModel("LColl")  # a list / generator of listener objects built from it
+
+
+def _items_filter_hook(ex, node, path, kind):
+    """[o for o, flag in L.items() if flag]  /  (o for o, flag in L.items() if not flag)  on the abstract listener
+    mapping: a collection defined pointwise, MEMBER(c, o) == L_HAS(L, o) and (not) truthy(L_FLAG(L, o))."""
+    import ast
+    if len(node.generators) != 1:
+        return None
+    gen = node.generators[0]
+    it, tgt = gen.iter, gen.target
+    if not (isinstance(it, ast.Call) and isinstance(it.func, ast.Attribute) and it.func.attr == "items" and not it.args
+            and isinstance(tgt, ast.Tuple) and len(tgt.elts) == 2 and all(isinstance(e, ast.Name) for e in tgt.elts)):
+        return None
+    kname, vname = tgt.elts[0].id, tgt.elts[1].id
+    if not (isinstance(node.elt, ast.Name) and node.elt.id == kname and len(gen.ifs) <= 1):
+        return None
+    neg = None
+    if gen.ifs:
+        c = gen.ifs[0]
+        if isinstance(c, ast.Name) and c.id == vname:
+            neg = False
+        elif isinstance(c, ast.UnaryOp) and isinstance(c.op, ast.Not) and isinstance(c.operand, ast.Name) and c.operand.id == vname:
+            neg = True
+        else:
+            return None
+    out = []
+    for p, d in ex.ev(it.func.value, path):
+        if isinstance(d, Raise):
+            out.append((p, d))
+            continue
+        if not (isinstance(d, O) and d.cls == "LMap"):
+            return None
+        coll = p.alloc("LColl", "coll")
+        o = z3.Const("o!ifh", Int)
+        keep = z3.BoolVal(True) if neg is None else (z3.Not(truthy(L_FLAG(d.e, o))) if neg else truthy(L_FLAG(d.e, o)))
+        p.assume(z3.ForAll([o], MEMBER(coll.e, o) == z3.And(L_HAS(d.e, o), keep), patterns=[MEMBER(coll.e, o)]))
+        out.append((p, coll))
+    return out
+
+
+from pyvc.execu import COMPREHENSION_HOOKS  # noqa: E402
+COMPREHENSION_HOOKS.append(_items_filter_hook)
+
+
 @model
-def val_keys(ex, path, recv, ca, node):
-    """listeners.keys(): the collection of listener objects (opaque)."""
-    return [(path, O(recv.e, "Val"))]
+def lmap_keys(ex, path, recv, ca, node):
+    """listeners.keys(): every listener of the mapping."""
+    coll = path.alloc("LColl", "coll")
+    o = z3.Const("o!lk", Int)
+    path.assume(z3.ForAll([o], MEMBER(coll.e, o) == L_HAS(recv.e, o), patterns=[MEMBER(coll.e, o)]))
+    return [(path, coll)]
 
 
-CLASSES["Val"].methods["keys"] = val_keys
+CLASSES["LMap"].methods["keys"] = lmap_keys
+CLASSES["LMap"].list_fn = lambda ex, path, v, node: lmap_keys.target(ex, path, v, CallArgs([], {}), node)  # list(d): its keys
+CLASSES["LColl"].list_fn = lambda ex, path, v, node: [(path, v)]
+
+
+@model
+def b_list_of_coll(ex, path, recv, ca, node):
+    return [(path, recv)]
 
 
 def D(s, me):
@@ -77,43 +154,52 @@ def model_has_state(s, me):
 
 @register
 class PRegisterCallbacks(Contract):
-    """_register_callbacks(listeners) — abstract: resolves machine, model and the given listeners and
-    then sets has_async_callbacks from everything registered SO FAR (callbacks.async_or_sync())."""
+    """_register_callbacks(listeners) — abstract, read off its body: resolves machine, model and the given
+    listeners TOGETHER (one Listeners object, every reference kind allowed), then sets has_async_callbacks
+    from everything registered so far (callbacks.async_or_sync())."""
     qualnames = ["pickle:_register_callbacks"]
-    params = [("self", "PSM"), ("listeners", "Val")]
+    params = [("self", "PSM"), ("listeners", "LColl")]
     returns = "None"
-    modifies = ["PRegistry.has_async", "PRegistry.listeners", "list.arr+", "list.len+"]
+    modifies = ["PRegistry.has_async", "PRegistry.init_coll", "list.arr+", "list.len+"]
     trusted = True
 
     def post(self, s0, s, a, r):
         reg = attr(s0, a.self.e, "_callbacks")
-        return {"flag-from-machine-model-and-these-listeners": z3.And(
-            s.sel("PRegistry.has_async", reg) == z3.Or(ASYNC_MM, ASYNC_L(a.listeners.e)),
-            s.sel("PRegistry.listeners", reg) == a.listeners.e)}
+        o = z3.Const("o!prc", Int)
+        return {"flag-from-machine-model-and-everything-registered": s.sel("PRegistry.has_async", reg) == z3.Or(
+                    ASYNC_MM, ASYNC_C(a.listeners.e), ASYNC_C(s0.sel("PRegistry.added_coll", reg))),
+                "registered-with-the-machine": s.sel("PRegistry.init_coll", reg) == a.listeners.e,
+                "other-registries-untouched": z3.ForAll([o], z3.Implies(o != reg, z3.And(
+                    z3.Select(s["PRegistry.has_async"], o) == z3.Select(s0["PRegistry.has_async"], o),
+                    z3.Select(s["PRegistry.init_coll"], o) == z3.Select(s0["PRegistry.init_coll"], o))))}
 
     def assumptions(self):
-        return ["StateMachine._register_callbacks: abstract contract (flag := machine/model/given listeners async), own contract under C12"]
-
-
-EMPTY_LISTENERS = z3.Int("EMPTY_LISTENERS")
+        return ["StateMachine._register_callbacks: abstract contract (registers the given listeners together with machine and model; "
+                "flag := machine/model/registered listeners async), own contract under C12"]
 
 
 @register
 class PAddListener(Contract):
     """add_listener(*listeners) — abstract, from its real body: resolves the listeners' callbacks
-    into the registry; it does NOT call async_or_sync(), so the flag is left as it was."""
+    into the registry AFTER what is there (safe references only); it does NOT call async_or_sync()."""
     qualnames = ["pickle:add_listener"]
-    params = [("self", "PSM"), ("*listeners", "Val")]
+    params = [("self", "PSM"), ("*listeners", "LColl")]
     returns = "Val"
-    modifies = ["PRegistry.listeners"]
+    modifies = ["PRegistry.added_coll"]
     trusted = True
+
+    def pre(self, s, a):
+        return {"first-add-on-this-registry": s.sel("PRegistry.added_coll", attr(s, a.self.e, "_callbacks")) == EMPTY_COLL}
 
     def post(self, s0, s, a, r):
         reg = attr(s0, a.self.e, "_callbacks")
-        return {"listeners-attached": s.sel("PRegistry.listeners", reg) == ref_of(a.listeners)}
+        o = z3.Const("o!pal", Int)
+        return {"listeners-attached-afterwards": s.sel("PRegistry.added_coll", reg) == a.listeners.e,
+                "other-registries-untouched": z3.ForAll([o], z3.Implies(o != reg, z3.Select(s["PRegistry.added_coll"], o)
+                                                                        == z3.Select(s0["PRegistry.added_coll"], o)))}
 
     def assumptions(self):
-        return ["StateMachine.add_listener: abstract contract (attaches listeners, leaves has_async_callbacks alone), read off its body"]
+        return ["StateMachine.add_listener: abstract contract (attaches listeners after the registered ones, leaves has_async_callbacks alone), read off its body"]
 
 
 @register
@@ -145,7 +231,8 @@ class PAsyncOrSync(Contract):
 
     def post(self, s0, s, a, r):
         return {"flag-recomputed": z3.And(
-            s.sel("PRegistry.has_async", a.self.e) == z3.Or(ASYNC_MM, ASYNC_L(s0.sel("PRegistry.listeners", a.self.e))),
+            s.sel("PRegistry.has_async", a.self.e) == z3.Or(ASYNC_MM, ASYNC_C(s0.sel("PRegistry.init_coll", a.self.e)),
+                                                            ASYNC_C(s0.sel("PRegistry.added_coll", a.self.e))),
             z3.ForAll([z3.Const("o!aos", Int)], z3.Implies(z3.Const("o!aos", Int) != a.self.e, z3.Select(
                 s["PRegistry.has_async"], z3.Const("o!aos", Int)) == z3.Select(s0["PRegistry.has_async"], z3.Const("o!aos", Int)))))}
 
@@ -208,9 +295,10 @@ class SetState(Contract):
     params = [("self", "PSM"), ("state", "dict[str,Val]")]
     returns = "None"
     raises = False
-    modifies = ["dict.has", "dict.val", "PRegistry.has_async", "PRegistry.listeners", "PEngine.is_async+", "PEngine.rtc+",
+    modifies = ["dict.has", "dict.val", "PRegistry.has_async", "PRegistry.init_coll", "PRegistry.added_coll", "PEngine.is_async+", "PEngine.rtc+",
                 "PEngine.pending_initial", "PEngine._rtc+", "list.arr+", "list.len+"]
     properties = ["C17"]
+    local_types = {"listeners": "LMap"}
 
     def pre(self, s, a):
         d = D(s, a.self.e)
@@ -226,6 +314,7 @@ class SetState(Contract):
         k = z3.Const("k!ss", Str)
         special = z3.Or(*[k == z3.StringVal(n) for n in DROPPED + ["_listeners", "_rtc"]])
         eng = attr(s, me, "_engine")
+        o_ = z3.Const("o!ssl", Int)
         listeners = z3.Select(s0.sel("dict.val", st), z3.StringVal("_listeners"))
         rtc = truthy(z3.Select(s0.sel("dict.val", st), z3.StringVal("_rtc")))
         # what the ORIGINAL machine's engine was: chosen at construction from machine, model AND listeners
@@ -237,7 +326,14 @@ class SetState(Contract):
             "C17|fresh-registry-cache-and-engine": z3.And(
                 attr(s, me, "_callbacks") >= s0["ghost.alloc"], eng >= s0["ghost.alloc"],
                 *[z3.Select(s.sel("dict.has", d), z3.StringVal(n)) for n in DROPPED + ["_listeners"]]),
-            "C17|listeners-re-attached": s.sel("PRegistry.listeners", attr(s, me, "_callbacks")) == listeners,
+            # equivalence needs the SAME registration order: constructor listeners are resolved together with the machine
+            # and the model (interleaved per callback spec), later ones after everything else
+            "C17|constructor-listeners-re-registered-with-the-machine": z3.ForAll([o_], MEMBER(s.sel("PRegistry.init_coll", attr(s, me, "_callbacks")), o_)
+                                                                                == z3.And(L_HAS(listeners, o_), truthy(L_FLAG(listeners, o_))),
+                                                                                patterns=[L_HAS(listeners, o_)]),
+            "C17|added-listeners-re-attached-afterwards": z3.ForAll([o_], MEMBER(s.sel("PRegistry.added_coll", attr(s, me, "_callbacks")), o_)
+                                                                  == z3.And(L_HAS(listeners, o_), z3.Not(truthy(L_FLAG(listeners, o_)))),
+                                                                  patterns=[L_HAS(listeners, o_)]),
             "C17|rtc-option-restored": s.sel("PEngine._rtc", eng) == rtc,
             "C17|same-kind-of-engine-as-the-original": s.sel("PEngine.is_async", eng) == orig_async,
             "C17|same-pending-activation-as-the-original": s.sel("PEngine.pending_initial", eng) == z3.And(
